@@ -268,8 +268,8 @@ def run(rep, prog, tier):
     txt = [ast.unparse(x) for x in stm]
     okf = 'original_folded = self.folded' in txt and any(isinstance(x, ast.If) and ast.unparse(x.test) == 'original_folded' and ast.unparse(x.body[0]) == 'output = self.unfold()' and
                                                          ast.unparse(x.orelse[0]) == 'output = self.copy()' for x in stm)
-    last = stm[-1]
-    okf = okf and isinstance(last, ast.If) and ast.unparse(last.test) == 'original_folded' and ast.unparse(last.body[0]) == 'return output.fold()' and ast.unparse(last.orelse[0]) == 'return output'
+    from sa.extract import two_way_return
+    okf = okf and two_way_return(stm) == ('original_folded', 'output.fold()', 'output')
     rep.ob('R-TPL', 'project fold typestate', okf, 'folded input: unfold -> project -> fold; unfolded input: copy -> project', sm.rel, pr.lineno, what='folded spectra project as fold(project(unfold))')
     lps = [x for x in stm if isinstance(x, ast.For)]
     oka = len(lps) == 1 and ast.unparse(lps[0].iter) == 'enumerate(ns)' and any(ast.unparse(y) == 'output = output._project_one_axis(proj, axis)' for y in ast.walk(lps[0]) if isinstance(y, ast.Assign))
